@@ -153,6 +153,7 @@ class RefControl:
         self.abandoned = False     # a transfer was left unfinished since the last fully successful one
         self.suspect = False       # ... and no bus reset has happened since that successful one (side effects unknown)
         self.dangling_unacked = False   # an ep0 data packet was never ACKed (host went on to the status stage)
+        self.in_past_end = False   # the host sent an IN token after the last packet of a GET_DESCRIPTOR data stage
         self.log = []              # reference event log for other monitors (c08): dicts with cycle stamps
 
     # -- helpers
@@ -202,6 +203,9 @@ class RefControl:
         if x is None or x.done:
             return True
         if x.stage == "data_in":
+            if x.kind == "get_descriptor" and (not x.legal or x.offset >= x.expected_total()):
+                self.in_past_end = True
+                self.res.bin("in_token_past_end_of_descriptor")
             if not (x.legal and x.supported):
                 if resp["kind"] == "handshake" and resp["pid"] == U.STALL:
                     x.stalled = x.done = True
@@ -378,7 +382,7 @@ class Session:
     # -------------------------------------------------------------- judging glue
     def _viol(self, symptom, detail):
         """Name the mechanism.  Three failure patterns have their own (history based) names; every other
-        contradiction keeps its symptom name."""
+        contradiction keeps its symptom name.  (A fourth: IN tokens after the end of a descriptor.)"""
         x = self.ref.cur
         if self.episode_failed:
             return                      # consequences of the first failure of an episode are not judged
@@ -387,7 +391,9 @@ class Session:
             self.muted.append((symptom, detail))
             self.res.event("protocol_contradictions_left_to_c07")
             return
-        if self.ref.abandoned or self.ref.suspect:
+        if self.ref.in_past_end:
+            mech = "in_past_end_wedges_descriptor_handler"
+        elif self.ref.abandoned or self.ref.suspect:
             mech = "stale_request_state_after_abandoned_transfer"
         elif x is not None and x.foreign_ack_unacked:
             mech = "foreign_ack_advances_control_data"
@@ -763,7 +769,7 @@ class Session:
         a = ref.addr
         kind = rng.choice(["setup_only", "setup_only", "partial_data", "data_no_status", "status_token_only",
                            "status_zlp_unacked", "wrong_direction", "ping", "stray_tokens", "out_data_request",
-                           "double_setup", "reset_mid_transfer", "wrong_status_data"])
+                           "double_setup", "reset_mid_transfer", "wrong_status_data", "in_past_end"])
         self.res.bin("junk_" + kind)
         self.step("JUNK", kind)
         if kind == "setup_only":
@@ -791,6 +797,16 @@ class Session:
                 yield from self.w_out(a, 0, U.DATA1, b"", token_only=True)
             if ok and kind == "wrong_status_data":
                 yield from self.w_out(a, 0, rng.choice([U.DATA0, U.DATA1]), bytes(rng.randrange(256) for _ in range(rng.choice([1, 8]))))
+        elif kind == "in_past_end":
+            # whole data stage, then more IN tokens than there is data (multi-packet descriptors preferred)
+            keys = sorted(self.descs, key=lambda k: -len(self.descs[k]))
+            key = keys[0] if rng.random() < 0.6 else rng.choice(keys)
+            ok = yield from self.transfer_in(GET_DESCRIPTOR(key[0], key[1], rng.choice([255, 0x3FF])), p_inter=0.0, p_noack=0.0, status=False)
+            if ok and not self.episode_failed:
+                for _ in range(rng.randint(1, 2)):
+                    yield from self.w_in(a, 0, rng.choice(["ack", "none"]))
+                if rng.random() < 0.6:
+                    yield from self.w_out(a, 0, U.DATA1, b"")
         elif kind == "status_zlp_unacked":
             s8 = rng.choice([SET_CONFIGURATION(rng.randrange(4)), SET_ADDRESS(rng.randrange(1, 128)), CLEAR_HALT(0x81)])
             ok = yield from self.w_setup(a, s8)
